@@ -58,6 +58,8 @@ type c16Sig struct {
 	Params   []c16Field
 	Decl     string
 	Callable string
+	// the same declarations in pieces, for the multi-file scenarios
+	TypesText, StageText, PipeText string
 }
 
 var c16Scalars = []string{"int", "float", "string", "bool", "path", "file", "txt"}
@@ -126,23 +128,30 @@ func c16GenSig(c *Ctx, idx int) *c16Sig {
 		}
 		sb.WriteString(")\n\n")
 	}
-	sb.WriteString("stage ST(\n")
+	s.TypesText = sb.String()
+	var st strings.Builder
+	st.WriteString("stage ST(\n")
 	for _, p := range s.Params {
-		fmt.Fprintf(&sb, "    in  %s %s,\n", p.Ty, p.Name)
+		fmt.Fprintf(&st, "    in  %s %s,\n", p.Ty, p.Name)
 	}
-	sb.WriteString("    out int o,\n    src comp \"x\",\n)\n")
+	st.WriteString("    out int o,\n    src comp \"x\",\n)\n")
+	s.StageText = st.String()
+	sb.WriteString(s.StageText)
+	var pl strings.Builder
+	pl.WriteString("pipeline PL(\n")
+	for _, p := range s.Params {
+		fmt.Fprintf(&pl, "    in  %s %s,\n", p.Ty, p.Name)
+	}
+	pl.WriteString("    out int o,\n)\n{\n    call ST(\n")
+	for _, p := range s.Params {
+		fmt.Fprintf(&pl, "        %s = self.%s,\n", p.Name, p.Name)
+	}
+	pl.WriteString("    )\n\n    return (\n        o = ST.o,\n    )\n}\n")
+	s.PipeText = pl.String()
 	if c.Rng.Intn(4) == 0 {
 		// a pipeline with the same signature wrapping the stage
 		s.Callable = "PL"
-		sb.WriteString("\npipeline PL(\n")
-		for _, p := range s.Params {
-			fmt.Fprintf(&sb, "    in  %s %s,\n", p.Ty, p.Name)
-		}
-		sb.WriteString("    out int o,\n)\n{\n    call ST(\n")
-		for _, p := range s.Params {
-			fmt.Fprintf(&sb, "        %s = self.%s,\n", p.Name, p.Name)
-		}
-		sb.WriteString("    )\n\n    return (\n        o = ST.o,\n    )\n}\n")
+		sb.WriteString("\n" + s.PipeText)
 	}
 	s.Decl = sb.String()
 	s.Dir = filepath.Join(c.Scratch, fmt.Sprintf("sig%d", idx))
@@ -1512,20 +1521,20 @@ func (x *c16Runner) fixedF() {
 	})
 	r.count("fixedF", true)
 	if pan != nil || err != nil {
-		r.violate(Violation{Kind: "property", Key: "C16:fork-invocation-build", What: fmt.Sprintf("%v %v", pan, err), Input: in})
+		r.violate(Violation{Kind: "property", Key: "C16:fn-fork-invocation-build", What: fmt.Sprintf("%v %v", pan, err), Input: in})
 		return
 	}
 	if _, _, _, cerr := syntax.ParseSourceBytes([]byte(src), "call.mro", []string{dir}, false); cerr != nil {
-		r.violate(Violation{Kind: "property", Key: "C16:fork-invocation-does-not-compile",
+		r.violate(Violation{Kind: "property", Key: "C16:fn-fork-invocation-does-not-compile",
 			What: "the per-fork invocation text does not compile: " + cerr.Error(), Input: in, Impl: src})
 		return
 	}
 	d, derr := core.InvocationDataFromSource([]byte(src), []string{dir})
 	want, _ := c16CanonText([]byte(`{"name": "n", "m": {"a b": [1,2]}, "u": {"x-y": {"z": 1}}}`), true)
 	if derr != nil {
-		r.violate(Violation{Kind: "property", Key: "C16:fork-invocation-does-not-parse", What: derr.Error(), Input: in, Impl: src})
+		r.violate(Violation{Kind: "property", Key: "C16:fn-fork-invocation-does-not-parse", What: derr.Error(), Input: in, Impl: src})
 	} else if msg := c16CompareData(d, "ST", []string{"s"}, map[string]string{"s": want}, nil, ""); msg != "" {
-		r.violate(Violation{Kind: "property", Key: "C16:fork-invocation-args", What: msg, Input: in, Impl: src})
+		r.violate(Violation{Kind: "property", Key: "C16:fn-fork-invocation-args", What: msg, Input: in, Impl: src})
 	}
 }
 
@@ -1543,8 +1552,36 @@ func (x *c16Runner) directionF(sig *c16Sig, ast *syntax.Ast) {
 	texts := map[string]string{}
 	var params []string
 	structured := false
+	// shape of the top-level pipeline's fork of a top-level `map call`: the
+	// split arguments arrive as *syntax.SplitExp VALUES (resolveSplit returns
+	// the unresolved expression), and splitargs is empty.
+	byValue := c.Rng.Intn(3) == 0
+	splitMode := 1 + c.Rng.Intn(2) // 1 arrays, 2 maps
+	nsplit := 1 + c.Rng.Intn(3)
+	skeys := g.genKeys(nsplit, true)
+	var expSplit []string
+	var vparser syntax.Parser
 	for _, p := range sig.Params {
 		params = append(params, p.Name)
+		if byValue && c.Rng.Intn(2) == 0 && (splitMode == 1 || p.Ty.MD == 0) {
+			var v *c16Val
+			if splitMode == 1 {
+				v = g.genTyped(c16Ty{p.Ty.Base, p.Ty.AD + 1, p.Ty.MD}, false, nsplit, nil)
+			} else {
+				v = g.genTyped(c16Ty{p.Ty.Base, 0, p.Ty.AD + 1}, false, -1, skeys)
+			}
+			var mb strings.Builder
+			v.mro(c, &mb)
+			if exp, perr := vparser.ParseValExp([]byte(mb.String())); perr == nil {
+				src, _ := exp.(syntax.MapCallSource)
+				args[p.Name] = &syntax.SplitExp{Value: exp, Source: src}
+				texts[p.Name] = "split " + v.JSON()
+				inner, _ := c16CanonText([]byte(v.JSON()), true)
+				expect[p.Name] = "{ k" + hx("split") + " " + inner + " }"
+				expSplit = append(expSplit, p.Name)
+				continue
+			}
+		}
 		v := g.genTyped(p.Ty, true, -1, nil)
 		m := c16Structured(c, v, true)
 		if _, isRaw := m.(json.RawMessage); !isRaw && m != nil && c16HasNestedCollectionInStruct(v, false) {
@@ -1565,7 +1602,7 @@ func (x *c16Runner) directionF(sig *c16Sig, ast *syntax.Ast) {
 	if pan := c16Recover(func() {
 		src, err = core.BuildCallSource("ST", args, nil, callable, &ast.TypeTable, []string{sig.Dir})
 	}); pan != nil || err != nil {
-		r.violate(Violation{Kind: "property", Key: k.key("fork-invocation-build"),
+		r.violate(Violation{Kind: "property", Key: k.key("fn-fork-invocation-build"),
 			What: fmt.Sprintf("BuildCallSource on resolved fork arguments fails: %v %v", pan, err), Input: in})
 		return
 	}
@@ -1575,19 +1612,166 @@ func (x *c16Runner) directionF(sig *c16Sig, ast *syntax.Ast) {
 		_, _, _, cerr = syntax.ParseSourceBytes([]byte(src), "call.mro", []string{sig.Dir}, false)
 	})
 	if pan != nil || cerr != nil {
-		r.violate(Violation{Kind: "property", Key: k.key("fork-invocation-does-not-compile"),
+		r.violate(Violation{Kind: "property", Key: k.key("fn-fork-invocation-does-not-compile"),
 			What: fmt.Sprintf("the per-fork invocation text does not compile: %v %v", pan, cerr), Input: in, Impl: src})
 		return
 	}
 	d, derr := core.InvocationDataFromSource([]byte(src), []string{sig.Dir})
 	if derr != nil {
-		r.violate(Violation{Kind: "property", Key: k.key("fork-invocation-does-not-parse"),
+		r.violate(Violation{Kind: "property", Key: k.key("fn-fork-invocation-does-not-parse"),
 			What: "per-fork invocation text does not parse: " + derr.Error(), Input: in, Impl: src})
 		return
 	}
-	if msg := c16CompareData(d, "ST", params, expect, nil, ""); msg != "" {
-		r.violate(Violation{Kind: "property", Key: k.key("fork-invocation-args"),
+	if len(expSplit) > 0 {
+		r.hist("F_split_by_value_not_in_splitargs")
+	}
+	if msg := c16CompareData(d, "ST", params, expect, expSplit, ""); msg != "" {
+		r.violate(Violation{Kind: "property", Key: k.key("fn-fork-invocation-args"),
 			What: "per-fork invocation does not carry the resolved arguments: " + msg, Input: in, Impl: src})
+	}
+}
+
+// ---------------------------------------------------------------- several files
+
+// multiFile: the declarations live in several files (types <- stage <- pipeline,
+// plus an unrelated file); the call text names 1-3 includes in every order and
+// calls something defined in the 1st / 2nd / 3rd / a transitively included
+// file.  text -> data -> text' -> data': call, args, splitargs survive, the
+// include of the data makes the regenerated text compile to a call of the same
+// callable, and the second round is a fixed point.
+func (x *c16Runner) multiFile(sig *c16Sig) {
+	c, r := x.c, x.r
+	dir := sig.Dir + "_mf"
+	os.MkdirAll(dir, 0o755)
+	defer os.RemoveAll(dir)
+	// private (underscore) and public names, as in real MROPATHs
+	tname, sname := "_types.mro", "_stages.mro"
+	if c.Rng.Intn(2) == 0 {
+		tname, sname = "types.mro", "lib/stages.mro"
+		os.MkdirAll(filepath.Join(dir, "lib"), 0o755)
+	}
+	files := map[string]string{
+		tname:          sig.TypesText,
+		sname:          "@include \"" + tname + "\"\n\n" + sig.StageText,
+		"pipeline.mro": "@include \"" + sname + "\"\n\n" + sig.PipeText,
+		"extra.mro":    "stage OTHER(\n    in  int q,\n    out int o,\n    src comp \"y\",\n)\n",
+	}
+	for n, t := range files {
+		os.WriteFile(filepath.Join(dir, n), []byte(t), 0o644)
+	}
+	mroPaths := []string{dir}
+	// a hazard-free case for the argument text
+	var k *c16Case
+	for i := 0; i < 20 && (k == nil || k.Src == ""); i++ {
+		k, _ = x.genCase(sig)
+	}
+	if k == nil || k.Src == "" {
+		return
+	}
+	body := k.Src[strings.Index(k.Src, "\n\n")+2:] // `[map ]call <Callable>(...)`
+	type scen struct {
+		name     string
+		includes []string
+		callable string
+	}
+	scens := []scen{
+		{"first-defines", []string{"pipeline.mro"}, "PL"},
+		{"transitive", []string{"pipeline.mro"}, "ST"},
+		{"second-defines", []string{"extra.mro", "pipeline.mro"}, "PL"},
+		{"second-of-two-other-first", []string{"pipeline.mro", "extra.mro"}, "OTHER"},
+		{"first-of-two", []string{"pipeline.mro", "extra.mro"}, "PL"},
+		{"third-defines", []string{tname, "extra.mro", "pipeline.mro"}, "PL"},
+		{"transitive-via-third", []string{"extra.mro", tname, "pipeline.mro"}, "ST"},
+		{"types-first", []string{tname, "pipeline.mro"}, "PL"},
+		{"direct-and-transitive", []string{sname, "pipeline.mro"}, "ST"},
+		{"transitive-types-first", []string{tname, sname}, "ST"},
+	}
+	for _, sc := range scens {
+		var sb strings.Builder
+		for _, inc := range sc.includes {
+			fmt.Fprintf(&sb, "@include %q\n", inc)
+		}
+		sb.WriteString("\n")
+		expect, expSplit := k.Expect, k.ExpSplit
+		var params []string
+		if sc.callable == "OTHER" {
+			sb.WriteString("call OTHER(\n    q = 7,\n)\n")
+			expect, expSplit, params = map[string]string{"q": "i7"}, nil, []string{"q"}
+		} else {
+			sb.WriteString(strings.Replace(body, "call "+sig.Callable+"(", "call "+sc.callable+"(", 1))
+			for _, p := range sig.Params {
+				params = append(params, p.Name)
+			}
+		}
+		src := sb.String()
+		kk := &c16Case{Sig: sig, Decl: fmt.Sprintf("%v", files), MroPaths: mroPaths, Src: src}
+		in := map[string]interface{}{"files": files, "call_mro": src, "scenario": sc.name}
+		r.count("MF:"+sc.name+src, true)
+		r.hist("MF_" + sc.name)
+		// the text itself must be a valid call (else the scenario is wrong)
+		// (parameters may be left unbound in hand-written text, so only parse it)
+		if _, err := new(syntax.Parser).UncheckedParseIncludes([]byte(src), filepath.Join(dir, "call.mro"), mroPaths); err != nil {
+			r.note("harness: multi-file scenario %s does not compile: %v", sc.name, err)
+			continue
+		}
+		var d1, d2 *core.InvocationData
+		var t1, t2 string
+		var err error
+		stage := ""
+		pan := c16Recover(func() {
+			stage = "text->data"
+			if d1, err = core.InvocationDataFromSource([]byte(src), mroPaths); err != nil {
+				return
+			}
+			stage = "data->text (mro_file " + d1.Include + ")"
+			if t1, err = d1.BuildCallSource(mroPaths); err != nil {
+				return
+			}
+			stage = "text'->data'"
+			if d2, err = core.InvocationDataFromSource([]byte(t1), mroPaths); err != nil {
+				return
+			}
+			stage = "data'->text''"
+			t2, err = d2.BuildCallSource(mroPaths)
+		})
+		if pan != nil || err != nil {
+			r.violate(Violation{Kind: "property", Key: "C16:include:" + strings.SplitN(stage, " ", 2)[0],
+				What: fmt.Sprintf("call text with several/transitive includes does not survive text -> data -> text' -> data' (at %s): %v %v",
+					stage, pan, err), Input: in, Impl: map[string]interface{}{"data": d1, "text'": t1}})
+			continue
+		}
+		var bound []string
+		for _, p := range params {
+			if _, ok := d1.Args[p]; ok {
+				bound = append(bound, p)
+			}
+		}
+		if msg := c16CompareData(d1, sc.callable, bound, expect, expSplit, ""); msg != "" {
+			r.violate(Violation{Kind: "property", Key: "C16:include:text-to-json", What: msg, Input: in, Impl: d1})
+			continue
+		}
+		// the regenerated text compiles to a call of the same callable
+		_, _, ast, cerr := syntax.ParseSourceBytes([]byte(t1), filepath.Join(dir, "call2.mro"), mroPaths, false)
+		if cerr != nil || ast == nil || ast.Call == nil || ast.Call.DecId != sc.callable {
+			r.violate(Violation{Kind: "property", Key: "C16:include:regenerated-text-does-not-compile",
+				What: fmt.Sprintf("text -> data (mro_file %q) -> text': text' does not compile to a call of %s: %v", d1.Include, sc.callable, cerr),
+				Input: in, Impl: t1})
+			continue
+		}
+		if msg := c16CompareData(d2, sc.callable, params, expect, expSplit, d1.Include); msg != "" {
+			r.violate(Violation{Kind: "property", Key: "C16:include:roundtrip", What: msg, Input: in,
+				Impl: map[string]interface{}{"text'": t1, "data'": d2}})
+			continue
+		}
+		if t2 != t1 {
+			r.violate(Violation{Kind: "property", Key: "C16:include:source-fixpoint",
+				What: "text' -> data' -> text'' is not the identity", Input: in, Impl: t2, Expect: t1})
+		}
+		// JSON direction with the include the data names: JSON -> text -> JSON
+		b, _ := json.Marshal(d1)
+		kk.InvJSON = string(b)
+		kk.FromCorps = true
+		x.directionA(kk)
 	}
 }
 
@@ -1726,16 +1910,21 @@ func runC16(c *Ctx) {
 		"vs Lean buildBinding/encodeArg/printable; B) hand-written MRO text (struct literals, MRO-only escapes, trailing " +
 		"commas)->data->text'->data' + Lean encode/wt on the real parser's expressions; F) BuildCallSource on " +
 		"resolver-shaped argument trees (pure core of Fork.writeInvocation) compiles and carries the arguments; float " +
-		"token class and exact value (MRO printer, JSON printer) vs Lean textAsInt/jsonAsInt/intVal; negative-zero probe. non-trivial = value depth>=2 or split or escaped string; distinct = distinct input text"
+		"token class and exact value (MRO printer, JSON printer) vs Lean textAsInt/jsonAsInt/intVal; negative-zero probe; M) declarations over several files, 1-3 includes in every order, callable defined in the 1st/2nd/3rd/transitively included file; T) Tier A real pipestances (GenProgram + top-level array/keyed map calls): every <node>/<fork>/_invocation compiles, names the callable, round-trips and equals the delivered _args. non-trivial = value depth>=2 or split or escaped string; distinct = distinct input text"
 	x := &c16Runner{c: c, r: r}
 	x.corpus()
 	x.fixedF()
 	x.negZero()
+	nta := 30
+	if c.Thorough {
+		nta = 300
+	}
+	x.tierA(nta)
 
 	nsig, per := 160, 16
 	nflt := 20000
 	if c.Thorough {
-		nsig, per, nflt = 4500, 24, 400000
+		nsig, per, nflt = 3600, 24, 400000
 	}
 	x.floats(nflt)
 	for i := 0; i < nsig; i++ {
@@ -1796,6 +1985,9 @@ func runC16(c *Ctx) {
 		}
 		for j := 0; j < per/3+1; j++ {
 			x.directionF(sig, ast)
+		}
+		if i%4 == 0 {
+			x.multiFile(sig)
 		}
 		os.RemoveAll(sig.Dir)
 	}
